@@ -347,6 +347,9 @@ func (e *Env) asSlice(v Value, t types.Type, st *State) (*SliceV, bool) {
 func (e *Env) evalIndex(y *ast.IndexExpr, st *State) Value {
 	c := e.C
 	bt := e.Info.TypeOf(y.X)
+	if c.AbsKeys && bt != nil && (isInternalKeyType(bt) || isByteSlice(bt)) {
+		panic(outOfReach("indexing an abstracted key at " + c.W.relPos(y.Pos())))
+	}
 	if bt == nil {
 		return e.opaque(y, st)
 	}
@@ -374,6 +377,18 @@ func (e *Env) evalIndex(y *ast.IndexExpr, st *State) Value {
 func (e *Env) evalSlice(y *ast.SliceExpr, st *State) Value {
 	c := e.C
 	bt := e.Info.TypeOf(y.X)
+	if c.AbsKeys && bt != nil && (isInternalKeyType(bt) || isByteSlice(bt)) {
+		// k[:0] (reuse of a buffer) keeps nothing of the key
+		if y.High != nil {
+			if tv, ok := e.Info.Types[y.High]; ok && tv.Value != nil && y.Low == nil {
+				if n, ok := constInt(tv); ok && n == 0 {
+					e.eval(y.X, st)
+					return &KeyV{Rank: c.freshVar("emptykey", SKey), Nil: TFalse, Len: IntC(0)}
+				}
+			}
+		}
+		panic(outOfReach("slicing an abstracted key at " + c.W.relPos(y.Pos())))
+	}
 	base := e.eval(y.X, st)
 	sl, ok := e.asSlice(base, bt, st)
 	if !ok {
@@ -660,10 +675,29 @@ func (c *FCtx) valueEq(a, b Value, t types.Type) *Term {
 		}
 	case *KeyV:
 		if y, ok := b.(*KeyV); ok {
-			return And(Eq(x.Nil, y.Nil), Or(x.Nil, Eq(x.Rank, y.Rank)))
+			if y.Nil.IsTrue() {
+				return x.Nil
+			}
+			if x.Nil.IsTrue() {
+				return y.Nil
+			}
+			return keyEq(x, y)
 		}
 		if y, ok := b.(*Term); ok && y.IsConst() {
 			return x.Nil
+		}
+	case *IKeyV:
+		if y, ok := b.(*IKeyV); ok {
+			if y.U.Nil.IsTrue() {
+				return x.U.Nil
+			}
+			if x.U.Nil.IsTrue() {
+				return y.U.Nil
+			}
+			return And(keyEq(x.U, y.U), Or(x.U.Nil, Eq(x.Num, y.Num)))
+		}
+		if y, ok := b.(*Term); ok && y.IsConst() {
+			return x.U.Nil
 		}
 	case nil:
 		return c.freshVar("eq", SBool)
